@@ -115,6 +115,7 @@ type State struct {
 	ghost   map[string]Value
 	chooseSeq []int
 	trail   []int32 // every decision taken since the initial state
+	lockCount int
 	chosen  map[string]int // named Choose decisions taken on this path
 	merged  bool    // passed a merge point (cannot be shipped to another worker)
 	abst    *absRec // abstractions (uninterpreted summaries) introduced on this path
@@ -131,7 +132,7 @@ func (s *State) clone() *State {
 	c := &cloner{memo: map[*Obj]*Obj{}}
 	n := &State{
 		pc: s.pc, nextObj: s.nextObj, clock: s.clock, nclock: s.nclock, forks: s.forks,
-		status: s.status, nOpaque: s.nOpaque, obs: s.obs, steps: s.steps, abst: s.abst, merged: s.merged,
+		status: s.status, nOpaque: s.nOpaque, obs: s.obs, steps: s.steps, abst: s.abst, merged: s.merged, lockCount: s.lockCount,
 	}
 	n.frames = make([]*Frame, len(s.frames))
 	for i, f := range s.frames {
@@ -197,8 +198,9 @@ func (s *State) clone() *State {
 // ---------- per-function static info ----------
 
 type funcInfo struct {
-	idx map[ssa.Value]int
-	n   int
+	idx  map[ssa.Value]int
+	n    int
+	live [][]bool // live[b][r]: register r may still be read from block b onwards (conservative)
 	// back[b.Index][succIndex] is true if the edge b->succ is a back edge (succ dominates b)
 }
 
@@ -225,6 +227,39 @@ func infoOf(fn *ssa.Function) *funcInfo {
 				add(v)
 			}
 		}
+	}
+	// may-be-read-later sets: registers used in any block reachable from b
+	uses := make([][]int, len(fn.Blocks))
+	for _, b := range fn.Blocks {
+		for _, in := range b.Instrs {
+			for _, op := range in.Operands(nil) {
+				if *op == nil {
+					continue
+				}
+				if r, ok := fi.idx[*op]; ok {
+					uses[b.Index] = append(uses[b.Index], r)
+				}
+			}
+		}
+	}
+	fi.live = make([][]bool, len(fn.Blocks))
+	for _, b := range fn.Blocks {
+		seen := make([]bool, len(fn.Blocks))
+		lv := make([]bool, fi.n)
+		stack := []*ssa.BasicBlock{b}
+		for len(stack) > 0 {
+			x := stack[len(stack)-1]
+			stack = stack[:len(stack)-1]
+			if seen[x.Index] {
+				continue
+			}
+			seen[x.Index] = true
+			for _, r := range uses[x.Index] {
+				lv[r] = true
+			}
+			stack = append(stack, x.Succs...)
+		}
+		fi.live[b.Index] = lv
 	}
 	v, _ := funcInfos.LoadOrStore(fn, fi)
 	return v.(*funcInfo)
